@@ -33,8 +33,8 @@ ASSUMPTIONS = [
     '"already present" in a list means an entry with the same serialised selectorText',
     'a/**/b is invalid, not a descendant selector: comments are only generated where white space is optional or in addition to it',
 ]
-MIN_EVENTS = {'quick': {'oracle.selector': 24000, 'oracle.attached': 3000, 'oracle.list-step': 8000, 'rejections': 800, 'oracle.parse-list': 1100, 'mode.log': 2000},
-              'thorough': {'oracle.selector': 550000, 'oracle.attached': 80000, 'oracle.list-step': 200000, 'rejections': 20000, 'oracle.parse-list': 22000, 'mode.log': 40000}}
+MIN_EVENTS = {'quick': {'oracle.selector': 24000, 'oracle.attached': 3000, 'oracle.list-step': 8000, 'rejections': 800, 'oracle.parse-list': 1100, 'mode.log': 2000, 'oracle.reassign': 1800},
+              'thorough': {'oracle.selector': 550000, 'oracle.attached': 80000, 'oracle.list-step': 200000, 'rejections': 20000, 'oracle.parse-list': 22000, 'mode.log': 40000, 'oracle.reassign': 36000}}
 
 AXES = ['neutral', 'ws', 'ws-min', 'comments', 'case', 'escapes']
 
@@ -278,6 +278,41 @@ def run_worker(ctx):
         if not ctx.mine(i):
             continue
         run_list_history(ctx, cssutils, ctx.rng('l', i))
+    # a Selector object that is re-assigned: after a refused text (raised or only logged) text, specificity and element are those of
+    # the old selector; after an accepted one those of a fresh object
+    n = 2500 if quick else 50000
+    for i in range(n):
+        if not ctx.mine(i):
+            continue
+        rng = ctx.rng('re', i)
+        first = rng.choice(GOOD + ['x y z#i.c', 'a:not(.c) > b::before', 'h1.c.d[e]'])
+        second = rng.choice(GOOD + [b for b in BAD if b != 'p|q'] + ['b c d +', 'x y,', 'p q[', 'a b c !', 'u v w ::'])
+        raising = rng.random() < 0.5
+        case = {'kind': 'reassign', 'first': first, 'second': second, 'raising': raising}
+        ctx.count('oracle.reassign')
+        ctx.count('evaluations')
+        try:
+            core.canonical_state(cssutils, raising=True)
+            sel = cssutils.css.Selector(selectorText=first)
+            before = (sel.selectorText, sel.specificity, sel.element)
+            core.canonical_state(cssutils, raising=raising)
+            try:
+                sel.selectorText = second
+                raised = False
+            except xml.dom.DOMException:
+                raised = True
+            core.canonical_state(cssutils, raising=True)
+            after = (sel.selectorText, sel.specificity, sel.element)
+            fresh = cssutils.css.Selector(selectorText=after[0])
+            problems = []
+            if (after[1], after[2]) != (fresh.specificity, fresh.element):
+                problems.append('specificity/element %r do not belong to the selector text %r (fresh object: %r)' % (after[1:], after[0], (fresh.specificity, fresh.element)))
+            if raised and after != before:
+                problems.append('rejected assignment changed the selector: %r -> %r' % (before, after))
+            if problems:
+                ctx.violation('selector.reassign', case, {'problems': problems, 'raised': raised})
+        except Exception as e:
+            ctx.violation('selector.exception', case, {'tb': core.short_tb(e)}, site=core.raise_site(e))
     n = 1500 if quick else 30000
     for i in range(n):
         if not ctx.mine(i):
@@ -314,5 +349,19 @@ def replay(ctx, case):
             ctx.violation('selector.structure' if got['specificity'] == exp['specificity'] else 'selector.specificity', case, {'diff': P.diff(got, exp)}, features=case.get('features', []))
     elif kind == 'attached':
         judge_attached(ctx, cssutils, case['abstract'], random.Random(0), [tuple(x) for x in case.get('namespaces', [])])
+    elif kind == 'reassign':
+        import xml.dom
+
+        core.canonical_state(cssutils, raising=True)
+        sel = cssutils.css.Selector(selectorText=case['first'])
+        core.canonical_state(cssutils, raising=case['raising'])
+        try:
+            sel.selectorText = case['second']
+        except xml.dom.DOMException:
+            pass
+        core.canonical_state(cssutils, raising=True)
+        fresh = cssutils.css.Selector(selectorText=sel.selectorText)
+        if (sel.specificity, sel.element) != (fresh.specificity, fresh.element):
+            ctx.violation('selector.reassign', case, {'got': [sel.specificity, sel.element], 'fresh': [fresh.specificity, fresh.element]})
     elif kind == 'list':
         run_list_history(ctx, cssutils, random.Random(0), ops_in=[list(o) for o in case['ops']], init_in=case['init'], mode_in=case.get('raising', True))
